@@ -87,7 +87,7 @@ class UpdateVectorIdxs(Contract):
     global_writes_allowed = (HVQ,)
     qualname = HVQ + "._update_vector_idxs"
     callable_by_contract = False
-    tags = {"": ("C09", "C19", "C10")}
+    tags = {"": ("C09", "C19", "C10", "C01", "C08")}
     bounded = True
 
     def setup(self, I, variant):
@@ -266,7 +266,7 @@ class VecProcLoop(_CfgLoop):
 class Vectorize(Contract):
     global_writes_allowed = (HVQ,)
     qualname = HVQ + ".vectorize"
-    tags = {"": ("C09", "C19", "C04")}
+    tags = {"": ("C09", "C19", "C04", "C01", "C08")}      # tensorize's C01 / C08 clauses rest on the row this writes
 
     def modifies(self, I, S):
         v = S.extra.get("vec")
